@@ -151,6 +151,22 @@ Theorem C16_check_sound_live : forall fs e,
 Proof. exact ei_sound. Qed.
 Print Assumptions C16_check_sound_live.
 
+(* call stacks (no exception): TracebackInfo.from_frame(...).get_formatted() is the header line
+   followed by what traceback.format_stack prints, for every list of frames *)
+Theorem C16_stack_format : forall fs,
+  tbi_formatted P (map cp_of_live fs) = L_header ++ NL ++ spec_stack_lines fs.
+Proof. exact stack_format. Qed.
+Print Assumptions C16_stack_format.
+
+Theorem C16_check_sound_stack : forall fs,
+  let cs := map cp_of_live fs in
+  let one := match rev cs with c :: _ => tb_frame_str P c | [] => [] end in
+  stack_verdict fs (spec_stack_lines fs)
+    (map (fun c => mkCpObs (cp_path c) (cp_lineno c) (cp_func c) (deferred_str P (cp_raw c))) cs)
+    (tbi_formatted P cs) one one = (true, true, false).
+Proof. exact stack_sound. Qed.
+Print Assumptions C16_check_sound_stack.
+
 (* ---- the hypotheses are inhabited by non-trivial states ------------------------------------------------ *)
 Example wf_inhabited :
   wf py_cc good_tb = true /\ markers_ok good_marks = true /\ long_repeat (t_frames good_tb) = false /\
